@@ -83,7 +83,9 @@ func genCase(seed int64, idx int, o genOpts) *Case {
 		c.Colls = append(c.Colls, col)
 	}
 	if o.oneDst {
+		// more source than downstream channels: up to nP handlers (one per source pchannel) share dst 0
 		c.DstPs = c.DstPs[:1]
+		c.DstChanNum = 1
 	}
 
 	nPacks := o.packsMin + rnd.Intn(o.packsMax-o.packsMin+1)
@@ -330,6 +332,179 @@ func genCase(seed int64, idx int, o genOpts) *Case {
 				pk.After = append(pk.After, stepDep(si))
 			}
 		}
+	}
+	return c
+}
+
+// ---------------- C03 profile: several streams multiplexed onto one downstream channel ----------------
+
+func genClock(seed int64, idx int) *Case {
+	rnd := newRand(seed, "clockplan", idx)
+	o := genOpts{profile: "clock", maxP: 4, maxColls: 4, drops: idx%5 == 0, late: false, deviants: false, junk: false, packsMin: 8, packsMax: 30, oneDst: true}
+	o.skewMs = []int{0, 1, 300, 10000}[rnd.Intn(4)]
+	c := genCase(seed, idx, o)
+	fam := idx % 3
+	switch fam {
+	case 0: // free running
+		c.DelayPermil = 0
+		c.Note = "free-running"
+	case 1: // seeded delays between computing a pack and enqueueing it
+		c.DelayPermil = 400
+		c.Note = "presend-delays"
+	case 2: // pairwise inversion plans: hold A at presend until B (another stream, same or next pack) is done
+		c.DelayPermil = 0
+		c.Note = "pairwise-inversion-holds"
+		type sref struct {
+			p    string
+			coll int
+		}
+		var streams []sref
+		for ci, col := range c.Colls {
+			for _, sh := range col.Shards {
+				streams = append(streams, sref{sh.SrcP, ci})
+			}
+		}
+		if len(streams) >= 2 {
+			n := len(c.Scripts[c.SrcPs[0]])
+			for k := 2; k < n-1; k += 1 + rnd.Intn(3) {
+				a := streams[rnd.Intn(len(streams))]
+				b := streams[rnd.Intn(len(streams))]
+				if a == b {
+					continue
+				}
+				c.Holds = append(c.Holds, Hold{P: a.p, Idx: k, Coll: a.coll, UntilP: b.p, UntilIdx: k + rnd.Intn(2), UntilColl: b.coll})
+			}
+		}
+	}
+	// resume cases: the streams start from a checkpoint whose time is above the source clock of lagging streams
+	if idx%7 == 3 {
+		for i := range c.Colls {
+			c.Colls[i].SeekTs = hts(1_700_000_000_000+uint64(rnd.Intn(3000)), 0)
+		}
+		c.Note += "+resume-from-checkpoint"
+	}
+	return c
+}
+
+// ---------------- C04 profile: drops, shard delivery orders, registration races, stops, dropped-while-down ----------------
+
+func permutations(n int) [][]int {
+	var out [][]int
+	a := make([]int, n)
+	for i := range a {
+		a[i] = i
+	}
+	var rec func(int)
+	rec = func(k int) {
+		if k == n {
+			out = append(out, append([]int{}, a...))
+			return
+		}
+		for i := k; i < n; i++ {
+			a[k], a[i] = a[i], a[k]
+			rec(k + 1)
+			a[k], a[i] = a[i], a[k]
+		}
+	}
+	rec(0)
+	return out
+}
+
+func findDropPack(c *Case, ci, si, pi int, kind string) int {
+	sh := c.Colls[ci].Shards[si]
+	for idx, pp := range c.Scripts[sh.SrcP] {
+		for _, m := range pp.Msgs {
+			if m.Kind == kind && m.Coll == ci && m.Shard == si && (kind == kDropColl || m.Part == pi) {
+				return idx
+			}
+		}
+	}
+	return -1
+}
+
+func genDrops(seed int64, idx int) *Case {
+	rnd := newRand(seed, "dropplan", idx)
+	o := genOpts{profile: "drops", maxP: 4, maxColls: 3, drops: true, late: false, deviants: idx%4 == 0, junk: false, skewMs: 20, packsMin: 6, packsMax: 14}
+	o.raceAddPart = idx%2 == 1
+	c := genCase(seed, idx, o)
+	c.DelayPermil = []int{0, 300}[rnd.Intn(2)]
+	mode := idx % 6
+	// pick the droppable objects
+	type obj struct{ ci, pi int }
+	var objs []obj
+	for ci, col := range c.Colls {
+		if findDropPack(c, ci, 0, -1, kDropColl) >= 0 {
+			objs = append(objs, obj{ci, -1})
+		}
+		for pi := 1; pi < len(col.Parts); pi++ {
+			if findDropPack(c, ci, 0, pi, kDropPart) >= 0 {
+				objs = append(objs, obj{ci, pi})
+			}
+		}
+	}
+	if len(objs) > 0 {
+		// enforce one delivery order of the shards' drop messages for ONE object (all S! orders appear across cases)
+		ob := objs[rnd.Intn(len(objs))]
+		S := len(c.Colls[ob.ci].Shards)
+		if S >= 2 {
+			perms := permutations(S)
+			pm := perms[(idx/6)%len(perms)]
+			kind := kDropColl
+			if ob.pi >= 0 {
+				kind = kDropPart
+			}
+			for i := 1; i < S; i++ {
+				prev, cur := pm[i-1], pm[i]
+				pIdx := findDropPack(c, ob.ci, prev, ob.pi, kind)
+				cIdx := findDropPack(c, ob.ci, cur, ob.pi, kind)
+				if pIdx < 0 || cIdx < 0 {
+					continue
+				}
+				pk := &c.Scripts[c.Colls[ob.ci].Shards[cur].SrcP][cIdx]
+				pk.After = append(pk.After, packDep(c.Colls[ob.ci].Shards[prev].SrcP, pIdx, ob.ci))
+			}
+			c.Note = fmt.Sprintf("drop order %v of %d shards for coll %d part %d", pm, S, ob.ci, ob.pi)
+		}
+	}
+	switch mode {
+	case 4: // stop a collection in the middle of the run: must never produce a drop
+		ci := rnd.Intn(len(c.Colls))
+		sh := c.Colls[ci].Shards[0]
+		at := 2 + rnd.Intn(max(1, len(c.Scripts[sh.SrcP])-3))
+		c.Steps = append(c.Steps, Step{Kind: sStopColl, Coll: ci, Async: true, After: []Dep{packDep(sh.SrcP, at, ci)}})
+		c.Note += fmt.Sprintf(" + stop coll %d after pack %d", ci, at)
+	case 5: // objects dropped upstream while CDC was down; everything resumes from checkpoints
+		seek0 := rnd.Intn(4) == 0
+		for i := range c.Colls {
+			if !seek0 {
+				c.Colls[i].SeekTs = hts(1_699_999_999_000, 0)
+			}
+			c.Colls[i].PreDownstream = true
+			for pi := range c.Colls[i].Parts {
+				c.Colls[i].Parts[pi].PreDownstream = true
+			}
+		}
+		marked := false
+		for _, ob := range objs {
+			if rnd.Intn(2) == 0 {
+				continue
+			}
+			marked = true
+			if ob.pi < 0 {
+				c.Colls[ob.ci].DroppedAtStart = true
+			} else {
+				c.Colls[ob.ci].Parts[ob.pi].DroppedAtStart = true
+			}
+		}
+		if !marked && len(objs) > 0 {
+			ob := objs[0]
+			if ob.pi < 0 {
+				c.Colls[ob.ci].DroppedAtStart = true
+			} else {
+				c.Colls[ob.ci].Parts[ob.pi].DroppedAtStart = true
+			}
+		}
+		c.Note += " + dropped-while-down objects"
 	}
 	return c
 }
